@@ -13,7 +13,10 @@ STATIC_ALLOW = {
     # path -> reason.  Only reachable from constructors.
     "std_detect::detect::cache::CACHE": "idempotent process-wide cache of the machine's CPU features (the 'shared CPU-feature detection' of the statement); every thread computes the same value",
 }
-AMBIENT_DENY = re.compile(r"std::time|std::env|std::thread::(current|sleep|spawn)|SystemTime|Instant::now|getrandom|rand::|std::process|std::fs|std::net|std::io::stdin")
+AMBIENT_DENY = re.compile(r"std::time|std::env|std::thread::(current|sleep|spawn)|SystemTime|Instant::now|getrandom|rand::|std::process|std::fs|std::net|std::io::stdin"
+                          r"|mxcsr|_mm_setcsr|_mm_getcsr|_MM_SET_|_MM_GET_|fesetround|fegetround|fpcr|fpsr")
+# per-thread floating-point control state (rounding mode, flush-to-zero): reading or writing it makes results depend on the thread
+FP_CONTROL = re.compile(r"(^|::)(_mm_setcsr|_mm_getcsr|_MM_SET_\w+|_MM_GET_\w+|fesetround|fegetround|__set_fpcr|__get_fpcr)$")
 INTERIOR = re.compile(r"\b(Rc|Cell|RefCell|UnsafeCell|OnceCell|Mutex|RwLock|Atomic\w+|Condvar|Once|LazyLock|OnceLock)\b|\*const |\*mut |&'static mut")
 SHARED_OK = {
     "std::sync::Arc<(dyn realfft::RealToComplex<T> + 'static)>": "immutable FFT plan: methods take &self; realfft/rustfft plan types hold no interior mutability (thorough tier checks Freeze of the instantiated field types)",
@@ -77,12 +80,28 @@ def rule_ambient(rep, doc, pdoc):
     R = "R-C18-ambient"
     names = doc["root_names"]
     roots = {r["root"]: r for r in doc["roots"]}
-    for grp in ("runtime", "vec", "kernel"):
+    # syntax-tree scan of the whole crate (all targets, including code not compiled here): FP control register access, inline asm
+    facts = rep.ctx.facts
+    n_fns = 0
+    for qual, fn in facts.all_fns():
+        if not fn.get("body"):
+            continue
+        n_fns += 1
+        for x in walk(fn["body"]):
+            if x.get("k") == "call" and ir.is_path(x["f"]) and FP_CONTROL.search(x["f"]["p"]):
+                rep.ob(R, "fp-control/%s" % qual, False,
+                       "`%s` reads or writes the per-thread floating-point control register (rounding mode / flush-to-zero): results then depend on which thread runs the resampler and on what ran there before" % show(x)[:80],
+                       loc(fn, x))
+            if x.get("k") == "macro" and x["name"].split("::")[-1] in ("asm", "global_asm", "llvm_asm"):
+                rep.ob(R, "asm/%s" % qual, False, "inline assembly in %s: cannot be analysed for ambient state" % qual, loc(fn, x))
+    rep.ob(R, "fp-control/scan", True, "%d function bodies scanned for FP-control-register access and inline asm" % n_fns, "src/")
+    for grp in ("runtime", "vec", "kernel", "ctor"):
         for name in names[grp]:
             r = roots.get(name)
             if r is None:
                 continue
             hits = [l["name"] for l in r["leaves"] if AMBIENT_DENY.search(l["name"])]
+            hits += list(r.get("asm", []))[:2] if grp != "ctor" else []
             hits += [c for c in r["crates"] if c in ("rand", "getrandom", "rand_core")]
             rep.ob(R, name, not hits, "ambient input reachable from a run-time root: %s" % hits, "src/")
     # address-dependent behaviour in rubato bodies: pointer->integer casts, align_offset / is_aligned
@@ -163,7 +182,7 @@ def run(rep):
         rep.guarded("R-C18-send", rule_send)
         rep.floor("R-C18-send", 5)
     rep.floor("R-C18-statics", 3 + 1 + 186 + 18 + 1)
-    rep.floor("R-C18-ambient", 186 + 1)
+    rep.floor("R-C18-ambient", 186 + 18 + 2)
     rep.floor("R-C18-ownership", 80)
     rep.clause("R-C18-statics", "no run-time root reaches any static or thread-local (and none makes an indirect call); constructors reach only rubato's immutable FEATURES tables and the reviewed std_detect cache; syntax-tree inventory agrees with MIR")
     rep.clause("R-C18-ambient", "no clock / environment / RNG / thread-identity function is reachable from run-time roots; no pointer->integer cast or alignment query in rubato bodies")
